@@ -201,13 +201,135 @@ def run_native(function, args, order, repo_root):
     return json.loads(p.stdout)
 
 
+_MATH = None
+
+
+def _math_table():
+    global _MATH
+    if _MATH is None:
+        import math
+        _MATH = {
+            'cos': lambda x: math.cos(x), 'sin': lambda x: math.sin(x), 'exp': lambda x: math.exp(x),
+            'sqrt': lambda x: math.sqrt(x) if x >= 0 else None,
+            'sinc': lambda x: 1.0 if x == 0 else math.sin(math.pi * x) / (math.pi * x),
+            'pow': lambda x, y: math.pow(x, y),
+        }
+    return _MATH
+
+
+def pin_functions(ob):
+    """In replay every input symbol is pinned; give the uninterpreted functions (cos, sin, exp, sqrt,
+    sinc, pow) their real values at the arguments that occur, innermost first."""
+    table = _math_table()
+    pins = []
+    for _ in range(6):
+        s = z3.Solver()
+        s.set('timeout', 5000)
+        for p in ob.pc + pins:
+            s.add(p)
+        if s.check() != z3.sat:
+            return pins
+        m = s.model()
+        apps = {}
+
+        def walk(e, seen):
+            if e.get_id() in seen:
+                return
+            seen.add(e.get_id())
+            if z3.is_app(e):
+                for ch in e.children():
+                    walk(ch, seen)
+                if e.num_args() > 0 and e.decl().name() in table and e.decl().kind() == z3.Z3_OP_UNINTERPRETED:
+                    apps[e.get_id()] = e
+        seen = set()
+        for f in ob.pc + [ob.formula]:
+            walk(f, seen)
+        new = 0
+        have = set(str(p.arg(0)) for p in pins)
+        for e in apps.values():
+            if str(e) in have:
+                continue
+            args = []
+            okay = True
+            for a in e.children():
+                # the argument must not itself contain an unpinned function application
+                v = z3.simplify(m.eval(a, model_completion=True))
+                if z3.is_rational_value(v):
+                    args.append(v.numerator_as_long() / v.denominator_as_long())
+                elif z3.is_int_value(v):
+                    args.append(float(v.as_long()))
+                else:
+                    okay = False
+            if not okay:
+                continue
+            inner = [c for a in e.children() for c in _uf_children(a, table)]
+            if any(str(c) not in have for c in inner):
+                continue
+            try:
+                val = table[e.decl().name()](*args)
+            except (ValueError, OverflowError):
+                val = None
+            if val is None:
+                continue
+            pins.append(e == S.z(Fraction(*float(val).as_integer_ratio())))
+            new += 1
+        if new == 0:
+            break
+    return pins
+
+
+def _uf_children(e, table):
+    out = []
+    stack = [e]
+    while stack:
+        x = stack.pop()
+        if z3.is_app(x):
+            if x.num_args() > 0 and x.decl().name() in table and x.decl().kind() == z3.Z3_OP_UNINTERPRETED:
+                out.append(x)
+            stack.extend(x.children())
+    return out
+
+
+def mentions(e, name):
+    stack = [e]
+    seen = set()
+    while stack:
+        x = stack.pop()
+        if x.get_id() in seen:
+            continue
+        seen.add(x.get_id())
+        if z3.is_app(x):
+            if x.decl().name() == name and x.decl().kind() == z3.Z3_OP_UNINTERPRETED:
+                return True
+            stack.extend(x.children())
+        elif z3.is_quantifier(x):
+            stack.append(x.body())
+    return False
+
+
+def strip_sqrt_axioms(pc):
+    """sqrt is pinned to a float value in replay; its exact axiom s*s == x would then be unsatisfiable."""
+    return [p for p in pc if not (mentions(p, 'sqrt') and not _is_pin(p))]
+
+
+def _is_pin(p):
+    return z3.is_eq(p) and z3.is_app(p.arg(0)) and p.arg(0).decl().kind() == z3.Z3_OP_UNINTERPRETED \
+        and (z3.is_rational_value(p.arg(1)) or z3.is_int_value(p.arg(1)))
+
+
 def try_replay(world, kind, name, prop_id, ob, verdict, pr):
     if kind != 'function' or pr.replay_state is None or verdict.z3model is None:
         return {'status': 'not-applicable', 'detail': 'client lemma or no model'}
     contract = world.contracts[name]
+    res = replay_with_model(world, contract, pr.replay_state, ob.pc, verdict.z3model)
+    if res.get('status') == 'confirmed':
+        res['same_obligation'] = any(b['obligation'] == ob.name for b in res['failed_on_real_code'])
+    return res
+
+
+def replay_with_model(world, contract, replay_state, pc, m):
     func = world.repo.function(contract.qualname)
-    env0, expected = pr.replay_state
-    m = verdict.z3model
+    env0, expected = replay_state
     pins = []
     try:
         budget = [MAX_ELEMS]
@@ -235,16 +357,22 @@ def try_replay(world, kind, name, prop_id, ob, verdict, pr):
         env[order[0]] = decode(world, nat['after'][order[0]])
     out.env = env
     ctx = Ctx(world, [])
-    ctx.pc = [p for p in ob.pc] + pins
+    ctx.pc = strip_sqrt_axioms([p for p in pc]) + pins
     ctx.counter = {'replay': 1}
+    ctx.expand_sums = True
     writes = [('param:' + k, 'native run changed this argument') for k in nat.get('changed', [])
               if not (func.name == '__init__' and k == order[0])]
+    from .nplib import PI
+    import math
+    ctx.pc.append(PI == S.z(Fraction(*math.pi.as_integer_ratio())))
     S.TOL = Fraction(1, 10 ** 9)
     try:
         ctx.verifying = contract.qualname
         prove.check_outcome(ctx, contract, env0, env, expected, out, writes)
         bad = []
         for o2 in ctx.obligations:
+            o2.pc = strip_sqrt_axioms(o2.pc)
+            o2.pc = o2.pc + pin_functions(o2)
             v2 = prove.discharge(o2, 10000)
             if v2.status == 'failed':
                 bad.append({'obligation': o2.name, 'skolems': {k: v for k, v in (v2.model or {}).items()
@@ -260,7 +388,6 @@ def try_replay(world, kind, name, prop_id, ob, verdict, pr):
     if bad:
         res['status'] = 'confirmed'
         res['failed_on_real_code'] = bad[:10]
-        res['same_obligation'] = any(b['obligation'] == ob.name for b in bad)
     else:
         res['status'] = 'not-confirmed'
     return res
